@@ -65,7 +65,7 @@ def run_case(ctx, rng, index, casedir):
     viol = []
     outcomes = collections.Counter()
     hub_case = rng.random() < 0.02  # a selection of well over a thousand records (alignments around a hub node)
-    w = VC.build(rng, casedir, index, ctx.tier, nrec=rng.randint(1300, 2600) if hub_case else rng.choice([2, 5, rng.randint(6, 40)]),
+    w = VC.build(rng, casedir, index, ctx.tier, nrec=rng.choice([1024, 2048, 4096, 8192, rng.randint(1300, 2600), rng.randint(1300, 2600)]) if hub_case else rng.choice([2, 5, rng.randint(6, 40)]),
                  **({"size": "small"} if hub_case else {}))
     o = VC.run_index(w, None if rng.random() < 0.7 else os.path.join(casedir, "x.gvi"))
     if not o.ok:
@@ -90,6 +90,7 @@ def run_case(ctx, rng, index, casedir):
         hub = cnt.most_common(1)[0][0]
         queries.append(("hub", [hub]))
         queries.append(("hub", [hub, rng.choice(aligned)]))
+        queries.append(("all_nodes", list(aligned)))  # selects every record: exactly the (often round) record count
     if aligned:
         queries.append(("single_aligned", [rng.choice(aligned)]))
     if unaligned:
